@@ -2714,6 +2714,17 @@ theorem sgCreate_absent (g : SObj) (c : Bool) (hl : alookup 0 g.props = none) :
   simp only [Spec.gCreate, Spec.gCreate?, sDefineOwn_eq, hl, sCreateProp]
   cases g.ext <;> simp [Spec.isGenericDescriptor, Spec.isDataDescriptor, Spec.isAccessorDescriptor, noPD]
 
+theorem gHas_gCreate_absent (g : MObj) (c : Bool) (v : Val) (hl : alookup 0 g.props = none) :
+    gHas (gCreate g c v) = g.ext := by
+  rw [gCreate_absent g c v hl]
+  cases he : g.ext with
+  | false => simp [gHas, hl]
+  | true => simp [gHas, alookup_aupsert]
+
+theorem gCreate_nonext (g : MObj) (c : Bool) (v : Val) (hl : alookup 0 g.props = none) (he : g.ext = false) :
+    gCreate g c v = g := by
+  rw [gCreate_absent g c v hl, he]; rfl
+
 /-- CreateMutableBinding succeeds exactly on an extensible global object (for an absent name) -/
 theorem sgCreate?_absent (g : SObj) (c : Bool) (hl : alookup 0 g.props = none) :
     Spec.gCreate? g c = if g.ext then some (Spec.gCreate g c) else none := by
@@ -2788,8 +2799,7 @@ theorem lookup_abs0 (g : MObj) : alookup 0 (absObj g).props = (alookup 0 g.props
 
 /-- **every global-binding operation refines ES5 §10.5 / §8.7.2 / §11.4.1** and keeps the global
     object well formed -/
-theorem gStep_refines (g : MObj) (op : GOp) (hw : WFObj g) (hp : g.proto = none)
-    (hne : devGlobalNonExt g op = false) :
+theorem gStep_refines (g : MObj) (op : GOp) (hw : WFObj g) (hp : g.proto = none) :
     (absObj (gStep g op).1, (gStep g op).2) = Spec.gStep (absObj g) op ∧
     WFObj (gStep g op).1 ∧ (gStep g op).1.proto = none := by
   have hi := inv_single g hw hp
@@ -2816,13 +2826,21 @@ theorem gStep_refines (g : MObj) (op : GOp) (hw : WFObj g) (hp : g.proto = none)
     cases hl : alookup 0 g.props with
     | none =>
       have hh : gHas g = false := by simp [gHas, hl]
-      have hext : g.ext = true := by simpa [devGlobalNonExt, hh] using hne
       have hl' : alookup 0 (absObj g).props = none := by simp [absObj, alookup_absProps, hl]
       have hc? := sgCreate?_absent (absObj g) eval hl'
-      have hext' : (absObj g).ext = true := hext
-      simp only [hh, Bool.not_false, if_true, hc?, hext']
+      have hgh := gHas_gCreate_absent g eval 0 hl
       obtain ⟨w1, w2⟩ := gCreate_wf g eval 0 hw hp
-      exact ⟨by rw [gCreateVar_refines g eval hl], w1, w2⟩
+      cases hext : g.ext with
+      | true =>
+        have hext' : (absObj g).ext = true := hext
+        simp only [hh, Bool.not_false, if_true, hc?, hext', hgh, hext]
+        exact ⟨by rw [gCreateVar_refines g eval hl], w1, w2⟩
+      | false =>
+        have hext' : (absObj g).ext = false := hext
+        simp only [hh, Bool.not_false, if_true, hc?, hext', hgh, hext, Bool.false_eq_true, if_false,
+          gCreate_nonext g eval 0 hl hext, hh]
+        refine ⟨?_, hw, hp⟩
+        first | rfl | trivial
     | some p =>
       have hh : gHas g = true := by simp [gHas, hl]
       simp only [hh, Bool.not_true, Bool.false_eq_true, if_false]
@@ -2833,15 +2851,23 @@ theorem gStep_refines (g : MObj) (op : GOp) (hw : WFObj g) (hp : g.proto = none)
     cases hl : alookup 0 g.props with
     | none =>
       have hh : gHas g = false := by simp [gHas, hl]
-      have hext : g.ext = true := by simpa [devGlobalNonExt, hh] using hne
       have hl' : alookup 0 (absObj g).props = none := by simp [absObj, alookup_absProps, hl]
       have hc? := sgCreate?_absent (absObj g) false hl'
-      have hext' : (absObj g).ext = true := hext
-      simp only [hh, Bool.not_false, if_true, hc?, hext']
+      have hgh := gHas_gCreate_absent g false 0 hl
       obtain ⟨w1, w2⟩ := gCreate_wf g false 0 hw hp
-      obtain ⟨s1, s2, s3⟩ := gSet_refines (gCreate g false 0) v w1 w2
-      refine ⟨?_, s2, s3⟩
-      rw [← gCreateVar_refines g false hl, ← s1]
+      cases hext : g.ext with
+      | true =>
+        have hext' : (absObj g).ext = true := hext
+        simp only [hh, Bool.not_false, if_true, hc?, hext', hgh, hext, Bool.not_true, Bool.false_eq_true, if_false]
+        obtain ⟨s1, s2, s3⟩ := gSet_refines (gCreate g false 0) v w1 w2
+        refine ⟨?_, s2, s3⟩
+        rw [← gCreateVar_refines g false hl, ← s1]
+      | false =>
+        have hext' : (absObj g).ext = false := hext
+        simp only [hh, Bool.not_false, if_true, hc?, hext', hgh, hext, Bool.false_eq_true, if_false,
+          gCreate_nonext g false 0 hl hext, hh]
+        refine ⟨?_, hw, hp⟩
+        first | rfl | trivial
     | some p =>
       have hh : gHas g = true := by simp [gHas, hl]
       simp only [hh, Bool.not_true, Bool.false_eq_true, if_false]
@@ -2852,16 +2878,23 @@ theorem gStep_refines (g : MObj) (op : GOp) (hw : WFObj g) (hp : g.proto = none)
     simp only [gStep, Spec.gStep, lookup_abs0]
     cases hl : alookup 0 g.props with
     | none =>
-      have hh : gHas g = false := by simp [gHas, hl]
-      have hext : g.ext = true := by simpa [devGlobalNonExt, hh] using hne
       have hl' : alookup 0 (absObj g).props = none := by simp [absObj, alookup_absProps, hl]
       have hc? := sgCreate?_absent (absObj g) eval hl'
-      have hext' : (absObj g).ext = true := hext
-      simp only [Option.map_none, hc?, hext', if_true]
+      have hgh := gHas_gCreate_absent g eval fnVal hl
       obtain ⟨w1, w2⟩ := gCreate_wf g eval fnVal hw hp
-      refine ⟨?_, w1, w2⟩
-      have := gCreateFn_refines g eval hl hp
-      simp only [← this]
+      cases hext : g.ext with
+      | true =>
+        have hext' : (absObj g).ext = true := hext
+        simp only [Option.map_none, hc?, hext', if_true, hgh, hext]
+        refine ⟨?_, w1, w2⟩
+        have := gCreateFn_refines g eval hl hp
+        simp only [← this]
+      | false =>
+        have hext' : (absObj g).ext = false := hext
+        have hh : gHas g = false := by simp [gHas, hl]
+        simp only [Option.map_none, hc?, hext', hgh, hext, Bool.false_eq_true, if_false, gCreate_nonext g eval fnVal hl hext, hh]
+        refine ⟨?_, hw, hp⟩
+        first | rfl | trivial
     | some existing =>
       simp only [Option.map_some, configurable_abs]
       have hwe := hw _ (alookup_mem hl)
@@ -2940,33 +2973,55 @@ theorem gStep_refines (g : MObj) (op : GOp) (hw : WFObj g) (hp : g.proto = none)
 /-- **global-binding histories refine ES5**: any sequence of programs doing identifier assignment,
     `var` / function declarations (global or eval code), `delete` and defineProperty on one global name gives
     the ES5 outcome (incl. TypeError), setter calls and the ES5 descriptor / value after every program -/
-theorem gRun_refines : ∀ (ops : List GOp) (g : MObj), WFObj g → g.proto = none → devGRun g ops = [] →
+theorem gRun_refines : ∀ (ops : List GOp) (g : MObj), WFObj g → g.proto = none →
     gRun g ops = Spec.gRun (absObj g) ops := by
   intro ops
   induction ops with
-  | nil => intro g _ _ _; rfl
+  | nil => intro g _ _; rfl
   | cons op ops ih =>
-    intro g hw hp hd
-    simp only [devGRun, append_nil_iff, ite_singleton_nil] at hd
-    obtain ⟨h1, h2, h3⟩ := gStep_refines g op hw hp hd.1
+    intro g hw hp
+    obtain ⟨h1, h2, h3⟩ := gStep_refines g op hw hp
     have hobs : gObserve (gStep g op).1 = Spec.gObserve (absObj (gStep g op).1) := by
       simp only [gObserve, Spec.gObserve]
       exact (observeName_refines [(gStep g op).1] 0 (gStep g op).1 h2 0).symm
     simp only [gRun, Spec.gRun]
     have e1 : (Spec.gStep (absObj g) op).1 = absObj (gStep g op).1 := by rw [← h1]
     have e2 : (Spec.gStep (absObj g) op).2 = (gStep g op).2 := by rw [← h1]
-    rw [e1, e2, ← hobs, ih _ h2 h3 hd.2]
+    rw [e1, e2, ← hobs, ih _ h2 h3]
 
-theorem gRun_refines_empty (ops : List GOp) (hd : devGRun ⟨none, true, []⟩ ops = []) :
-    gRun ⟨none, true, []⟩ ops = Spec.gRun ⟨none, true, []⟩ ops :=
-  gRun_refines ops ⟨none, true, []⟩ (fun kp h => by cases h) rfl hd
+theorem gRun_refines_empty (ops : List GOp) : gRun ⟨none, true, []⟩ ops = Spec.gRun ⟨none, true, []⟩ ops :=
+  gRun_refines ops ⟨none, true, []⟩ (fun kp h => by cases h) rfl
+
+/-- **descriptor maps with side-effecting members**: names first, then every member read and converted (15.2.3.7 steps 3-5) -/
+theorem mapWalk_refines (ents : List (Name × MAct)) : ∀ (fuel : Nat) (dels : List Bool) (acc : List Name) (i : Nat),
+    mapWalk ents fuel dels acc i = Spec.mapWalk ents fuel dels acc i := by
+  intro fuel
+  induction fuel with
+  | zero => intro _ _ _; rfl
+  | succ f ih =>
+    intro dels acc i
+    simp only [mapWalk, Spec.mapWalk]
+    cases ents[i]? with
+    | none => rfl
+    | some e =>
+      obtain ⟨n, act⟩ := e
+      simp only []
+      split
+      · rfl
+      · cases act <;> simp only [ih]
+
+theorem defineMap_refines (ents : List (Name × MAct)) : defineMap ents = Spec.defineMap ents := by
+  simp only [defineMap, Spec.defineMap, mapWalk_refines]
+  cases Spec.mapWalk ents (ents.length + 1) (ents.map fun _ => false) [] 0 <;> rfl
 
 /-- not vacuous, and the formerly deviating histories now agree: `x = 1; function x(){}; delete x`,
     `eval('var x'); delete x` -/
 example : gRun ⟨none, true, []⟩ [.assign 4, .funDecl false, .del] = Spec.gRun ⟨none, true, []⟩ [.assign 4, .funDecl false, .del] :=
-  gRun_refines_empty _ (by decide)
+  gRun_refines_empty _
 example : ((gRun ⟨none, true, []⟩ [.assign 4, .funDecl false, .del])[2]?).map (·.1) = some (.bool false) := by decide
 example : ((gRun ⟨none, true, []⟩ [.varDecl true, .del])[1]?).map (·.1) = some (.bool true) := by decide
+/-- `Object.preventExtensions(this)`, then `var zq`: TypeError on both sides -/
+example : ((gRun ⟨none, true, []⟩ [.preventExt, .varDecl false])[1]?).map (·.1) = some .typeError := by decide
 
 /-! ## the §15.2.3 functions on a non-object argument -/
 
